@@ -1,0 +1,16 @@
+//go:build verif
+
+package skiplist
+
+import (
+	"math/rand"
+
+	"github.com/fogfish/golem/maplike"
+)
+
+// SetHeightSource replaces the generator a list made by New draws its node
+// heights from. It exists in verification builds only (build tag verif):
+// node heights are otherwise seeded from the wall clock and cannot be chosen.
+func SetHeightSource[K, V any](list maplike.MapLike[K, V], src rand.Source) {
+	list.(*tSkipList[K, V]).random = rand.New(src)
+}
